@@ -100,6 +100,51 @@ def c16(run, a):
     order = {('debug', 'even'): 0}
     n = compare_traces(run, traces, lambda c: order.get(c, 1))
     run.cov['script_comparisons'] = n
+    # the Buf / BufMut side (typed getters, cursor operations, writers): same cases in debug and release, results compared
+    import subprocess
+    hd = vlib.cargo_build('debug')
+    hr = vlib.cargo_build('release')
+    for sargs in (['buf', 'getters'], ['buf', 'cursor'], ['mut']):
+        if a.replay:
+            break
+        outs = {}
+        for prof, binp in (('debug', hd), ('release', hr)):
+            try:
+                q = subprocess.run([binp] + sargs, stdout=subprocess.PIPE, stderr=subprocess.DEVNULL, timeout=600, env=dict(os.environ, VERIF_TIER='quick'))
+                outs[prof] = q.stdout.decode(errors='replace').splitlines()
+            except subprocess.TimeoutExpired as ex:
+                outs[prof] = (ex.stdout or b'').decode(errors='replace').splitlines() + ['TIMEOUT']
+
+        def cases(lines):
+            cs, cur = [], None
+            for ln in lines:
+                if ln.startswith('t ') or ln.startswith('m '):
+                    cur = [ln]
+                    cs.append(cur)
+                elif cur is not None and not ln.startswith('try '):
+                    cur.append(ln)
+            return cs
+        cd, cr = cases(outs['debug']), cases(outs['release'])
+        diff = None
+        for i in range(max(len(cd), len(cr))):
+            x = cd[i] if i < len(cd) else ['(missing)']
+            y = cr[i] if i < len(cr) else ['(missing)']
+            # spare capacities chosen by std may legitimately differ? no: same std, same requests — compare everything
+            if x != y:
+                k = 0
+                while k < len(x) and k < len(y) and x[k] == y[k]:
+                    k += 1
+                diff = (i, x, y, k)
+                break
+        run.cov['t2_cmp_' + '_'.join(sargs)] = {'cases': min(len(cd), len(cr)), 'equal': diff is None}
+        if diff:
+            i, x, y, k = diff
+            lx = x[k] if k < len(x) else '(case ended / process died)'
+            ly = y[k] if k < len(y) else '(case ended / process died)'
+            ops = [l for l in (x if len(x) >= len(y) else y)[:k + 1] if l.startswith(('t ', 'm ', 'o '))]
+            ops = [l.split(' -> ')[0] for l in ops]
+            run.fail(f'stream={"_".join(sargs)}:cfg-diff', f'oracle-fail C16 stream={" ".join(sargs)} case={i}: [debug] {lx[:200]}  !=  [release] {ly[:200]}',
+                     f'# differs between the debug and the release build: harness {" ".join(sargs)}\n' + '\n'.join(ops))
     for p in traces.values():
         try:
             os.remove(p)
@@ -108,7 +153,7 @@ def c16(run, a):
     run.cov['rule'] += ("; C16: the same seeded scripts run under every configuration {debug, release (no overflow checks, no debug assertions)} x "
                         "{even, odd (thorough: alternating) byte-buffer addresses} (thorough: x {default, no-default-features, extra-platforms}); the "
                         "observable projection (op, outcome incl. panics, every live handle's kind/len/capacity/is_unique/contents, owner drop counts) "
-                        "must be identical script by script")
+                        "must be identical script by script; the Buf / BufMut streams (getters, cursor operations, writers) are run in debug and release and compared case by case")
     run.samples += ['theorem cfg_irrelevant (cfg₁ cfg₂ e op) (ho : OpOK op) (s) (h : WFx s) : step cfg₁ e op s = step cfg₂ e op s',
                     'theorem parity_irrelevant (cfg e op) (ho : OpOK op) (s) (h : WFx s) : eraseR (step cfg e op s) = step cfg evenEnv op (erase s)']
     return run.finish()
